@@ -62,6 +62,7 @@ def scan_grammar():
         raise SystemExit('gen: cannot find precedence block')
     levels = [[]]
     atoms = []
+    prefix_space = []
     for line in m.group(1).splitlines():
         t = line.strip()
         if not t or t.startswith('//'):
@@ -70,7 +71,7 @@ def scan_grammar():
             levels.append([])
             continue
         mi = re.match(r'x:(\(@\)|@)\s+space\(\)\s+"([^"]+)"\s+space\(\)\s+y:(\(@\)|@)\s*\{.*BinaryOperator::(\w+).*\}$', t)
-        mp = re.match(r'"([^"]+)"\s+v:(\(@\)|@)\s*\{.*UnaryOperator::(\w+).*\}$', t)
+        mp = re.match(r'"([^"]+)"\s+(space\(\)\s+)?v:(\(@\)|@)\s*\{.*UnaryOperator::(\w+).*\}$', t)
         if mi:
             la, text, ra, name = mi.groups()
             if (la, ra) == ('(@)', '@'):
@@ -81,11 +82,25 @@ def scan_grammar():
                 raise SystemExit('gen: unsupported associativity markers: ' + t)
             levels[-1].append((kind, text, name))
         elif mp:
-            text, mark, name = mp.groups()
+            text, sp, mark, name = mp.groups()
+            prefix_space.append(bool(sp))
             levels[-1].append(('prefixSame' if mark == '(@)' else 'prefixUp', text, name))
         else:
             atoms.append(re.sub(r'\s+', ' ', t))
             levels[-1].append(('atom', t, ''))
+    if len(set(prefix_space)) > 1:
+        raise SystemExit('gen: prefix operators differ in whether blanks may follow them; the model has one flag')
+    kws['prefix_space'] = bool(prefix_space and prefix_space[0])
+    import hashlib
+    g = re.search(r'parser!\s*\{(.*?)\n\}\s*\n\s*#\[cfg\(test\)\]', src, re.S)
+    if not g:
+        raise SystemExit('gen: cannot delimit the parser! block')
+    body = g.group(1).replace(m.group(1), '')
+    for nm in ('op', 'branc_op', 'flag_op'):
+        body = re.sub(r'rule\s+%s\(\)[^=]*=\s*\$\((.*?)\)\s*\n\s*\n' % nm, '', body, flags=re.S)
+    body = re.sub(r'//[^\n"]*\n', '\n', body)
+    body = re.sub(r'\s+', '', body)
+    kws['digest'] = int(hashlib.sha256(body.encode()).hexdigest()[:15], 16)
     return kws, levels, atoms
 
 BINOPS = {'Add': 'add', 'Sub': 'sub', 'Mul': 'mul', 'Div': 'div', 'Rem': 'rem', 'BitwiseAnd': 'band',
@@ -223,6 +238,12 @@ def main():
     out.append('')
     out.append('/-- the atom alternatives are the five the model implements, in this order -/')
     out.append(f'def atomsAsModelled : Bool := {"true" if atoms == EXPECTED_ATOMS else "false"}')
+    out.append('')
+    out.append('/-- blanks may follow a prefix operator (`"-" space() v:(@)`) -/')
+    out.append(f'def prefixSpace : Bool := {"true" if kws["prefix_space"] else "false"}')
+    out.append('')
+    out.append('/-- digest (first 60 bits of SHA-256) of the grammar text outside the precedence block and the keyword lists, comments and white space removed: the hand-written rules of Model/Peg.lean were written against the text with this digest (pinned in Props/C14.lean) -/')
+    out.append(f'def grammarDigest : Nat := {kws["digest"]}')
     out.append('')
     for k in ('op', 'branc_op', 'flag_op'):
         nm = {'op': 'opKeywords', 'branc_op': 'branchKeywords', 'flag_op': 'flagKeywords'}[k]
